@@ -1,6 +1,7 @@
 (* C14 (sequential half, ring.Buffered) — the buffered ring is a FIFO queue.
    Statements only; every proof is [exact <lemma of C14/BufferedProofs.v>]. *)
-From Kit Require Import C14.BufferedModel C14.BufferedSpec C14.BufferedProofs.
+From Kit Require Import C14.BufferedModel C14.BufferedSpec C14.BufferedProofs
+  C14.BufferedPtrModel C14.BufferedPtrProofs.
 
 (* The current tree: for EVERY sequence of AppendBack / RemoveFront / Front / Len / Range (with
    a callback that stops early or never), of any length, and EVERY initial size and buffer size
@@ -31,3 +32,49 @@ Theorem C14_buffered_oracle_sound : forall ops obs,
   fifo_oracle ops obs = true <-> fifo_spec ops obs.
 Proof. exact fifo_oracle_sound. Qed.
 Print Assumptions C14_buffered_oracle_sound.
+
+(* End to end at pointer level.  The model of C14/BufferedPtrModel.v keeps exactly what the Go
+   struct keeps — b.ring (an address in the heap of ring nodes), b.end, b.bsize — and performs
+   every ring access through the transcribed ring.go methods (Len, Move, Next, New, Link,
+   Unlink; growth = Move(end-1).Link(New(bsize)), shrink = Move(end).Unlink(bsize)).  On the
+   current tree, for EVERY operation sequence and every initial/buffer size, its outputs are
+   those of a plain queue: it never dereferences nil, every ring walk terminates, and
+   Front / RemoveFront / Range / Len agree with the queue. *)
+Theorem C14_buffered_ptr_fifo : forall (initial bsize : Z) (ops : list bop),
+  buf_run_ptr Fixed initial bsize ops = q_run ops.
+Proof. exact buffered_ptr_fifo. Qed.
+Print Assumptions C14_buffered_ptr_fifo.
+
+(* Hence the cycle-level model used for the differential run (each b.ring.Move(k).op read as
+   an operation at index k mod Len of the cycle of cell values) and the pointer-level model
+   agree on every input. *)
+Theorem C14_buffered_ptr_refines_cycle : forall (initial bsize : Z) (ops : list bop),
+  buf_run_ptr Fixed initial bsize ops = buf_run Fixed initial bsize ops.
+Proof. exact buffered_ptr_refines_cycle. Qed.
+Print Assumptions C14_buffered_ptr_refines_cycle.
+
+(* The defect of the code before the fix shows at pointer level exactly as in the cycle-level
+   model (RemoveFront on an empty buffer). *)
+Theorem C14_buffered_ptr_remove_empty_refuted : exists initial bsize ops,
+  buf_run_ptr Original initial bsize ops <> q_run ops /\
+  buf_run_ptr Original initial bsize ops = buf_run Original initial bsize ops.
+Proof. exact buffered_ptr_remove_empty_refuted. Qed.
+Print Assumptions C14_buffered_ptr_remove_empty_refuted.
+
+(* Counter-model (not the code): a RemoveFront that does not reset the vacated slot is not a
+   queue — after a wrap-around, draining the queue returns a stale element instead of nil. *)
+Theorem C14_buffered_ptr_noclear_refuted : exists initial bsize ops,
+  buf_run_ptr_k Fixed (mk_knobs false) initial bsize ops <> q_run ops /\
+  buf_run_ptr_k Fixed (mk_knobs false) initial bsize ops
+    = [BV None; BV (Some 1%Z); BV (Some 1%Z); BZ 0; BL []].
+Proof. exact buffered_ptr_noclear_refuted. Qed.
+Print Assumptions C14_buffered_ptr_noclear_refuted.
+
+(* Counter-model (not the code): capacity cached in a field and the shrink unlinking from
+   Move(end-1) is not a queue — when the shrink fires at end = 0 the buffer is left on a
+   detached ring and later appends overwrite queued elements. *)
+Theorem C14_buffered_ptr_cached_shrink_refuted : exists initial bsize ops,
+  buf_run_ptr_cached initial bsize ops <> q_run ops /\
+  buf_run_ptr_cached initial bsize ops = [BV None; BV (Some 3%Z); BZ 2; BL [Some 3%Z; Some 3%Z]].
+Proof. exact buffered_ptr_cached_shrink_refuted. Qed.
+Print Assumptions C14_buffered_ptr_cached_shrink_refuted.
